@@ -106,6 +106,12 @@ func init() {
 }
 
 func simListen(ctx context.Context, network, address string) (net.Listener, error) {
+	switch network {
+	case "tcp", "tcp4", "tcp6", "unix", "unixpacket":
+	default:
+		// what net.ListenConfig.Listen answers for anything else
+		return nil, &net.OpError{Op: "listen", Net: network, Err: net.UnknownNetworkError(network)}
+	}
 	return sim.Listen(network, address)
 }
 
